@@ -2,11 +2,11 @@
    Proofs/C04*.v; Print Assumptions beneath each.
    TODO (unproved), compared on every generated case instead (see harness/c04/NOTES.md):
      generator_resumable    : wf -> obs (commit acts) = spec_exec acts   (re-entrant)
-     executed_monotone, one_per_discriminator, deferred_when_reached *)
-From Coq Require Import List NArith ZArith Bool.
+     deferred_when_reached, declaration order within a phase for re-entrant runs *)
+From Coq Require Import List NArith ZArith Bool Sorted.
 Import ListNotations.
 Require Import Verif.Lib.Wire Verif.Lib.C04Sort Verif.Gen.Facts_C04 Verif.Model.C04.
-Require Import Verif.Proofs.C04 Verif.Proofs.C04_flat Verif.Proofs.C04_decide Verif.Proofs.C04_safe Verif.Proofs.C04_groups Verif.Proofs.C04_spec.
+Require Import Verif.Proofs.C04 Verif.Proofs.C04_flat Verif.Proofs.C04_decide Verif.Proofs.C04_safe Verif.Proofs.C04_groups Verif.Proofs.C04_spec Verif.Proofs.C04_mono Verif.Proofs.C04_one.
 
 (* the regenerated facts say: both repairs are in place (every new action is tested against an
    already executed one; discarded actions leave remaining_actions) *)
@@ -130,6 +130,27 @@ Theorem C04_late_phase_only : forall gs st evs order m evs' st',
   min_order st = Some m /\ (order < m)%Z /\ In order (map fst gs).
 Proof. exact (late_only cfg_current). Qed.
 Print Assumptions C04_late_phase_only.
+
+(* EXECUTED ACTIONS RUN IN NON-DECREASING PHASE ORDER, for every program -- callables that declare further
+   actions included -- whose orders are ints.  [commit_trace] is the list of yielded actions of the very run
+   [commit] (C04_commit_trace_is_the_log: its identities are exactly the Run events of the log). *)
+Theorem C04_executed_monotone : forall acts,
+  wf_orders acts = true ->
+  StronglySorted (fun a b => (ordkey a <= ordkey b)%Z) (commit_trace cfg_current acts).
+Proof. exact (executed_monotone cfg_current). Qed.
+Print Assumptions C04_executed_monotone.
+
+Theorem C04_commit_trace_is_the_log : forall acts,
+  run_events (snd (commit acts)) = map (fun a => Run (aid a)) (commit_trace cfg_current acts).
+Proof. exact (commit_trace_log cfg_current). Qed.
+Print Assumptions C04_commit_trace_is_the_log.
+
+(* OVER THE WHOLE RUN -- re-entrant declarations included -- NO DISCRIMINATOR IS EXECUTED TWICE
+   (no well-formedness assumption needed) *)
+Theorem C04_one_per_discriminator : forall acts,
+  NoDup (somes (map D (commit_trace cfg_current acts))).
+Proof. exact (one_per_discriminator cfg_current). Qed.
+Print Assumptions C04_one_per_discriminator.
 
 (* the unrepaired code (both parameters off) contradicts the specification: DESIGN.md section 5 item 3 *)
 Theorem C04_commit_spec_refuted_crossphase :
